@@ -16,6 +16,7 @@ from . import version
 from . import regexfmt
 from . import v1version
 from .patterns import Pattern
+from . import _verif
 
 logger = logging.getLogger("bumpver.v1rewrite")
 
@@ -35,6 +36,7 @@ def rewrite_lines(
         span_l, span_r = match.span
         new_line = match.line[:span_l] + replacement + match.line[span_r:]
         new_lines[match.lineno] = new_line
+        _verif.emit("rewrite.match", lineno=match.lineno, span=match.span, pattern=match.pattern.raw_pattern, replacement=replacement)
 
     non_matched_patterns = set(patterns) - found_patterns
     if non_matched_patterns:
@@ -152,3 +154,4 @@ def rewrite_files(
         new_content = file_data.line_sep.join(file_data.new_lines)
         with io.open(file_data.path, mode="wt", newline='', encoding="utf-8") as fobj:
             fobj.write(new_content)
+        _verif.emit("rewrite.write", path=file_data.path, line_sep=file_data.line_sep, n_lines=len(file_data.new_lines))
